@@ -83,6 +83,11 @@ def run(tier):
     res.traces = len(traces)
     res.evaluations = len(traces)
     res.extra["solved_models"] = len(solved)
+    res.extra["table_entries_checked"] = sum(sum(tb["rowlen"]) for t in traces for tb in t["tables"])
+    res.extra["nonzero_multipliers_in_dual_tables"] = sum(1 for t in solved for d in t["duals"] for r in d["val"]
+                                                         for x in r if x != 0)
+    if not solved or not res.extra["nonzero_multipliers_in_dual_tables"] or len({t["cls"] for t in traces}) != 24:
+        raise Machinery("vacuous run: %s" % res.extra)
     verdicts = c04.validate(res, traces, wd, module="TablesTrace", cfg=TRACE_CFG)
     nontriv = judge(res, verdicts)
     res.distinct_nontrivial = len(nontriv)
